@@ -1184,6 +1184,32 @@ fn run_generators(ctx: &mut Ctx) {
                 }
             }
             objs.push(("from_str leading zeros".into(), format!("{}000{}", if v.neg { "-" } else { "" }, v.mag.to_dec()).parse::<BigInt>().unwrap()));
+            // digit-vector and text constructors in every radix class (bit-aligned, bit-unaligned power of two, general)
+            // with short and long runs of redundant leading zero digits (longer than one and two 64-bit words)
+            for &radix in &[2u32, 4, 8, 16, 32, 64, 128, 256, 3, 7, 10, 36, 255] {
+                let base: Vec<u8> = v.mag.to_radix_le(radix).iter().map(|&x| x as u8).collect();
+                for &pad in &[0usize, 1, 5, 9, 10, 11, 13, 21, 22, 23, 45, 64, 65, 70, 130] {
+                    let mut le = base.clone();
+                    le.extend(std::iter::repeat(0).take(pad));
+                    let mut be = le.clone();
+                    be.reverse();
+                    if let Some(x) = BigInt::from_radix_le(s, &le, radix) {
+                        objs.push((format!("from_radix_le({}) pad{}", radix, pad), x));
+                    }
+                    if let Some(x) = BigInt::from_radix_be(s, &be, radix) {
+                        objs.push((format!("from_radix_be({}) pad{}", radix, pad), x));
+                    }
+                    if radix <= 36 {
+                        let txt: String = std::iter::once(if v.neg { "-" } else { "" }.to_string()).chain(be.iter().map(|&d| std::char::from_digit(d as u32, radix).unwrap().to_string())).collect();
+                        if let Ok(x) = <BigInt as num_traits::Num>::from_str_radix(&txt, radix) {
+                            objs.push((format!("from_str_radix({}) pad{}", radix, pad), x));
+                        }
+                        if let Some(x) = BigInt::parse_bytes(txt.as_bytes(), radix) {
+                            objs.push((format!("parse_bytes({}) pad{}", radix, pad), x));
+                        }
+                    }
+                }
+            }
             for (name, x) in &objs {
                 ctx.case();
                 ctx.nontrivial(1);
